@@ -35,54 +35,62 @@ def run_l2(run, cases, rng, n8, nother):
     other = [c for c in acc if c["abs"]["ty"] not in ("i8", "u8")]
     chosen = (eight if len(eight) <= n8 else rng.sample(eight, n8)) + (other if len(other) <= nother else rng.sample(other, nother))
     # anchors of the spec must be the literals used here (checked against the case text)
-    entries, items, calls, meta = [], [], [], {}
-    for j, c in enumerate(chosen):
-        a = c["abs"]
-        name = "r%04d" % (j + 1)
-        decl = [e for e in c["files"][0][1]["e"] if e[0] == "r"][0][1]
-        entries.append([name, decl])
-        items.append(a)
-        ty = a["ty"]
-        for flav in ("td_string", "td"):
-            if ty in ("i8", "u8"):
-                cid = len(calls) + 1
-                if flav == "td_string":
-                    rust = "for n in %s::MIN..=%s::MAX { println!(\"{{\\\"call\\\":%d,\\\"n\\\":{},\\\"outcome\\\":\\\"Ok\\\",\\\"out\\\":\\\"{}\\\"}}\", n, esc(&td_string!(Locale::en, %s, count = n).to_string())); } String::new()" % (ty, ty, cid, name)
-                else:
-                    rust = "for n in %s::MIN..=%s::MAX { println!(\"{{\\\"call\\\":%d,\\\"n\\\":{},\\\"outcome\\\":\\\"Ok\\\",\\\"out\\\":\\\"{}\\\"}}\", n, esc(&render(td!(Locale::en, %s, count = move || n)))); } String::new()" % (ty, ty, cid, name)
-                calls.append({"id": cid, "flav": "raw", "rust": rust})
-                meta[cid] = {"j": j + 1, "mode": "int", "flav": flav}
-            else:
-                for idx, txt in enumerate(ANCHOR_TXT[ty]):
+    CHUNK = 72      # declarations per generated package: one huge main() makes rustc super-linear
+    projects, metas, itemss = [], [], []
+    for k in range(0, len(chosen), CHUNK):
+        entries, items, calls, meta = [], [], [], {}
+        for j, c in enumerate(chosen[k:k + CHUNK]):
+            a = c["abs"]
+            name = "r%04d" % (j + 1)
+            decl = [e for e in c["files"][0][1]["e"] if e[0] == "r"][0][1]
+            entries.append([name, decl])
+            items.append(a)
+            ty = a["ty"]
+            for flav in ("td_string", "td"):
+                if ty in ("i8", "u8"):
                     cid = len(calls) + 1
-                    lit = ("(%s%s)" % (txt, SUFFIX[ty])) if txt.startswith("-") else (txt + SUFFIX[ty])
                     if flav == "td_string":
-                        rust = "td_string!(Locale::en, %s, count = %s).to_string()" % (name, lit)
+                        rust = "for n in %s::MIN..=%s::MAX { println!(\"{{\\\"call\\\":%d,\\\"n\\\":{},\\\"outcome\\\":\\\"Ok\\\",\\\"out\\\":\\\"{}\\\"}}\", n, esc(&td_string!(Locale::en, %s, count = n).to_string())); } String::new()" % (ty, ty, cid, name)
                     else:
-                        rust = "render(td!(Locale::en, %s, count = move || %s))" % (name, lit)
+                        rust = "for n in %s::MIN..=%s::MAX { println!(\"{{\\\"call\\\":%d,\\\"n\\\":{},\\\"outcome\\\":\\\"Ok\\\",\\\"out\\\":\\\"{}\\\"}}\", n, esc(&render(td!(Locale::en, %s, count = move || n)))); } String::new()" % (ty, ty, cid, name)
                     calls.append({"id": cid, "flav": "raw", "rust": rust})
-                    meta[cid] = {"j": j + 1, "mode": "anchor", "idx": idx + 1, "flav": flav}
-    project = {"name": "c04probe", "cfg": {"default": "en", "locales": ["en"]}, "files": [["en", {"t": "map", "e": entries}]], "calls": calls}
-    results, log = probe.build_and_run(run, [project], tag="_c04")
-    r = results["c04probe"]
-    if not r["built"]:
-        run.violation("l2-build", "a project made of accepted range declarations does not compile", {"build_log": r["build_log"] or log[-3000:]})
-        return 0
+                    meta[cid] = {"j": j + 1, "mode": "int", "flav": flav}
+                else:
+                    for idx, txt in enumerate(ANCHOR_TXT[ty]):
+                        cid = len(calls) + 1
+                        lit = ("(%s%s)" % (txt, SUFFIX[ty])) if txt.startswith("-") else (txt + SUFFIX[ty])
+                        if flav == "td_string":
+                            rust = "td_string!(Locale::en, %s, count = %s).to_string()" % (name, lit)
+                        else:
+                            rust = "render(td!(Locale::en, %s, count = move || %s))" % (name, lit)
+                        calls.append({"id": cid, "flav": "raw", "rust": rust})
+                        meta[cid] = {"j": j + 1, "mode": "anchor", "idx": idx + 1, "flav": flav}
+        projects.append({"name": "c04probe%02d" % (len(projects) + 1), "cfg": {"default": "en", "locales": ["en"]},
+                         "files": [["en", {"t": "map", "e": entries}]], "calls": calls})
+        metas.append(meta)
+        itemss.append(items)
+    results, log = probe.build_and_run(run, projects, tag="_c04")
     trace = []
-    for ev in r["events"]:
-        m = meta[ev["call"]]
-        if m["mode"] == "int":
-            if "n" not in ev:
-                continue      # the wrapper line of the loop
-            trace.append({"ev": "Render", "case": 1, "j": m["j"], "mode": "int", "n": ev["n"], "idx": 0, "flav": m["flav"], "outcome": ev["outcome"], "out": probe.to_syms(ev["out"])})
-        else:
-            trace.append({"ev": "Render", "case": 1, "j": m["j"], "mode": "anchor", "n": 0, "idx": m["idx"], "flav": m["flav"], "outcome": ev["outcome"], "out": probe.to_syms(ev["out"])})
+    for k, project in enumerate(projects):
+        r = results[project["name"]]
+        if not r["built"]:
+            run.violation("l2-build", "a project made of accepted range declarations does not compile", {"build_log": r["build_log"] or log[-3000:]})
+            return 0
+        meta = metas[k]
+        for ev in r["events"]:
+            m = meta[ev["call"]]
+            if m["mode"] == "int":
+                if "n" not in ev:
+                    continue      # the wrapper line of the loop
+                trace.append({"ev": "Render", "case": k + 1, "j": m["j"], "mode": "int", "n": ev["n"], "idx": 0, "flav": m["flav"], "outcome": ev["outcome"], "out": probe.to_syms(ev["out"])})
+            else:
+                trace.append({"ev": "Render", "case": k + 1, "j": m["j"], "mode": "anchor", "n": 0, "idx": m["idx"], "flav": m["flav"], "outcome": ev["outcome"], "out": probe.to_syms(ev["out"])})
     trace.append({"ev": "End"})
     wd = os.path.join(run.workdir, "l2")
     os.makedirs(wd, exist_ok=True)
     tpath, cpath = os.path.join(wd, "trace.ndjson"), os.path.join(wd, "cases.ndjson")
     vp.write_ndjson(tpath, trace)
-    vp.write_ndjson(cpath, [{"id": 1, "abs": {"items": items}}])
+    vp.write_ndjson(cpath, [{"id": k + 1, "abs": {"items": items}} for k, items in enumerate(itemss)])
     summary, rejects, _ = vp.trace_validate("Trace_Ranges", "Trace_Ranges.cfg", wd, tpath, cpath, timeout=3600)
     if summary["consumed"] != summary["events"]:
         raise vp.ToolError("trace spec consumed %s of %s events" % (summary["consumed"], summary["events"]))
@@ -90,7 +98,7 @@ def run_l2(run, cases, rng, n8, nother):
     run.events += summary["events"]
     for rj in rejects:
         ev = trace[rj["l"] - 1]
-        a = items[ev["j"] - 1]
+        a = itemss[ev["case"] - 1][ev["j"] - 1]
         run.violation("l2;%s;ty=%s;branches=%s;count=%s" % (ev["flav"], a["ty"], json.dumps(a["branches"], sort_keys=True), ev["n"] if ev["mode"] == "int" else "anchor%d" % ev["idx"]),
                       "run-time selection differs: rendered %r" % vp.text_of(ev["out"]), {"event": ev, "decl": a})
     return len(trace) - 1
